@@ -349,8 +349,32 @@ def _s4(ctx, f, pm, rd, kindvar, where, rel):
     col.floor("crop_sites", len(crops), 2)
     for kind, n in crops:
         gs = guards_of(pm, n)
-        t, pol = gs[-1]
-        conj = t.values if isinstance(t, ast.BoolOp) and isinstance(t.op, ast.And) else [t]
+        # the innermost guard that consults the tolerance, as a conjunction of comparisons: the true arm of `a and b`, or the
+        # complement of a guard clause `if a' or not (b): raise` (De Morgan)
+        t, pol = next(((t_, p_) for t_, p_ in reversed(gs) if any(isinstance(x, ast.Name) and x.id == "fix" for x in ast.walk(t_))), gs[-1])
+        INV = {ast.Lt: ast.GtE, ast.LtE: ast.Gt, ast.Gt: ast.LtE, ast.GtE: ast.Lt, ast.Eq: ast.NotEq, ast.NotEq: ast.Eq,
+               ast.Is: ast.IsNot, ast.IsNot: ast.Is}
+
+        def _conj(e, p):
+            if isinstance(e, ast.UnaryOp) and isinstance(e.op, ast.Not):
+                return _conj(e.operand, not p)
+            if isinstance(e, ast.BoolOp) and isinstance(e.op, ast.And if p else ast.Or):
+                out_ = []
+                for v_ in e.values:
+                    c_ = _conj(v_, p)
+                    if c_ is None:
+                        return None
+                    out_ += c_
+                return out_
+            if isinstance(e, ast.Compare):
+                if p:
+                    return [e]
+                if len(e.ops) == 1 and type(e.ops[0]) in INV:
+                    return [ast.copy_location(ast.Compare(left=e.left, ops=[INV[type(e.ops[0])]()], comparators=e.comparators), e)]
+            return None
+        conj = _conj(t, pol)
+        pol = conj is not None
+        conj = conj or []
         got = set()
         subst = {}
         for d in rd.defs:
@@ -358,7 +382,7 @@ def _s4(ctx, f, pm, rd, kindvar, where, rel):
                 subst[d.name] = d.value
         nz = Normalizer(rename=ren, subst=subst)
         for cj in conj:
-            if isinstance(cj, ast.Compare) and u(cj) != "fix is not None":
+            if isinstance(cj, ast.Compare) and u(cj) not in ("fix is not None", "None is not fix"):
                 left = cj.left
                 for op, right in zip(cj.ops, cj.comparators):
                     got.add(cmp_norm(left, op, right, nz))
@@ -387,7 +411,7 @@ def _s6(ctx, rel):
     pm = parent_map(f.node)
     rd = ReachingDefs(f.node)
     cats = [c for c in own_calls(f.node) if call_name(c) == "torch.cat" and c.args and isinstance(c.args[0], (ast.List, ast.Tuple))]
-    col.floor("load_ref_cat_sites", len(cats), 4)
+    col.floor("load_ref_cat_sites", len(cats), 2)  # one per symbol at least; the four (symbol, dimensionality) variants are an obligation below
     # the dimensionality variable: bound from <tensor>.ndim / .dim() (possibly in a parallel assignment)
     ndim_names = set()
     for d in rd.defs:
@@ -422,33 +446,42 @@ def _s6(ctx, rel):
                    f"with the transcript", rel, c.lineno)
             continue
         other = elts[1 - pos[0]]
-        dim2 = any(isinstance(t, ast.Compare) and len(t.ops) == 1 and isinstance(t.ops[0], ast.Eq) and u(t.comparators[0]) == "2"
-                   and isinstance(t.left, ast.Name) and t.left.id in ndim_names and pol for t, pol in gs)
-        key = f"{sym}-{'2d' if dim2 else '1d'}"
-        seen.add(key)
-        want_pos = 1 if sym == "sos" else 0  # transcript position in the list
-        col.ob("G16", "S6", f"{where}::{key}::order", pos[0] == want_pos,
-               f"the {sym} symbol is concatenated on the wrong side of the transcript: `{u(c)}`", rel, c.lineno,
-               sample=u(c))
-        # the symbol row derives from the right symbol
-        der = rd.derives(other)
-        uses_sym = any(isinstance(n, ast.Name) and n.id == sym for n in der.nodes())
-        col.ob("G16", "S6", f"{where}::{key}::symbol", uses_sym,
-               f"the row inserted for {sym} does not carry `{sym}`", rel, c.lineno, sample=u(other))
-        # shape donor: must not index/slice dimension 0 of the transcript
-        donors = []
-        for n in der.nodes():
-            if isinstance(n, ast.Subscript) and isinstance(n.value, ast.Name) and n.value.id == tgt:
-                sl = n.slice
-                first = sl.elts[0] if isinstance(sl, ast.Tuple) else sl
-                if isinstance(first, ast.Constant) and first.value is Ellipsis:
-                    continue
-                donors.append(n)
-        guarded = any(("numel" in u(t) or "len(" in u(t) or "size(0)" in u(t) or "shape[0]" in u(t)) for t, pol in gs)
-        col.ob("G16", "S6", f"{where}::{key}::shape-donor", not donors or guarded,
-               f"the {sym} row takes its shape from `{u(donors[0]) if donors else ''}`, i.e. from dimension 0 of "
-               f"the transcript: an empty transcript yields an empty row (or IndexError) and gets no {sym}",
-               rel, c.lineno, sample=[u(d) for d in donors])
+        # the symbol row may be built per dimensionality at the cat site (two cats) or before it (one cat, the row defined on both
+        # arms of the dimensionality test): one variant per reaching definition, judged under the guards of that definition
+        variants = [(other, gs)]
+        if isinstance(other, ast.Name):
+            ds_ = [d for d in rd.defs_of(other) if d.kind == "assign" and getattr(d, "stmt", None) is not None and d.value is not None]
+            if len(ds_) > 1:
+                variants = [(d.value, list(gs) + list(guards_of(pm, d.stmt))) for d in ds_]
+        gs_cat = gs
+        for other, gs in variants:
+            dim2 = any(isinstance(t, ast.Compare) and len(t.ops) == 1 and isinstance(t.ops[0], ast.Eq) and u(t.comparators[0]) == "2"
+                       and isinstance(t.left, ast.Name) and t.left.id in ndim_names and pol for t, pol in gs)
+            key = f"{sym}-{'2d' if dim2 else '1d'}"
+            seen.add(key)
+            want_pos = 1 if sym == "sos" else 0  # transcript position in the list
+            col.ob("G16", "S6", f"{where}::{key}::order", pos[0] == want_pos,
+                   f"the {sym} symbol is concatenated on the wrong side of the transcript: `{u(c)}`", rel, c.lineno,
+                   sample=u(c))
+            # the symbol row derives from the right symbol
+            der = rd.derives(other)
+            uses_sym = any(isinstance(n, ast.Name) and n.id == sym for n in der.nodes())
+            col.ob("G16", "S6", f"{where}::{key}::symbol", uses_sym,
+                   f"the row inserted for {sym} does not carry `{sym}`", rel, c.lineno, sample=u(other))
+            # shape donor: must not index/slice dimension 0 of the transcript
+            donors = []
+            for n in der.nodes():
+                if isinstance(n, ast.Subscript) and isinstance(n.value, ast.Name) and n.value.id == tgt:
+                    sl = n.slice
+                    first = sl.elts[0] if isinstance(sl, ast.Tuple) else sl
+                    if isinstance(first, ast.Constant) and first.value is Ellipsis:
+                        continue
+                    donors.append(n)
+            guarded = any(("numel" in u(t) or "len(" in u(t) or "size(0)" in u(t) or "shape[0]" in u(t)) for t, pol in gs)
+            col.ob("G16", "S6", f"{where}::{key}::shape-donor", not donors or guarded,
+                   f"the {sym} row takes its shape from `{u(donors[0]) if donors else ''}`, i.e. from dimension 0 of "
+                   f"the transcript: an empty transcript yields an empty row (or IndexError) and gets no {sym}",
+                   rel, c.lineno, sample=[u(d) for d in donors])
     col.ob("G16", "S6", f"{where}::all-four-variants", seen == {"sos-1d", "sos-2d", "eos-1d", "eos-2d"},
            f"sos/eos insertion variants found: {sorted(seen)}", rel, f.line)
     # _write_hyp
